@@ -18,12 +18,12 @@ import (
 // transaction kinds of the blocks obligation (all concrete: blockContainsAccounts looks accounts
 // up by their base58 text)
 const (
-	verifC19BkOther    = iota // static accounts outside the filter universe
-	verifC19BkStaticA         // mentions A statically
-	verifC19BkStaticB         // mentions B statically
-	verifC19BkLoadedA         // v0 transaction: A is loaded through an address table (recorded in the protobuf meta)
-	verifC19BkBadWire         // transaction bytes do not decode (the code logs and skips it)
-	verifC19BkBadMeta         // meta does not parse (the code logs and goes on)
+	verifC19BkOther   = iota // static accounts outside the filter universe
+	verifC19BkStaticA        // mentions A statically
+	verifC19BkStaticB        // mentions B statically
+	verifC19BkLoadedA        // v0 transaction: A is loaded through an address table (recorded in the protobuf meta)
+	verifC19BkBadWire        // transaction bytes do not decode (the code logs and skips it)
+	verifC19BkBadMeta        // meta does not parse (the code logs and goes on)
 	verifC19BkNumKinds
 )
 
